@@ -125,7 +125,7 @@ func run(t *rapid.T, r *rec.Recorder) {
 		delta := new(big.Int).Sub(bal(p), before[p.ID].u0)
 		want := big.NewInt(0)
 		if p.Ack.Code == 0 {
-			want = p.Amount
+			want = bridge.ExpectedCredit(p)
 			c.delivered++
 		}
 		if delta.Cmp(want) != 0 {
@@ -138,7 +138,7 @@ func run(t *rapid.T, r *rec.Recorder) {
 		sb := map[int]*big.Int{}
 		rb := map[int][2]*big.Int{}
 		for _, p := range cands {
-			sb[p.ID] = w.Balance(p.SrcIdx, p.Token, p.Sender.Addr)
+			sb[p.ID] = w.SenderSide(p)
 			rb[p.ID] = [2]*big.Int{w.Balance(p.SrcIdx, p.FeeTok, w.Rels[0].Addr), w.Balance(p.SrcIdx, p.FeeTok, w.Rels[1].Addr)}
 		}
 		m.ActAck(t)
@@ -150,7 +150,7 @@ func run(t *rapid.T, r *rec.Recorder) {
 				continue
 			}
 			// was it this step? (only one ack per step)
-			delta := new(big.Int).Sub(w.Balance(p.SrcIdx, p.Token, p.Sender.Addr), sb[p.ID])
+			delta := new(big.Int).Sub(w.SenderSide(p), sb[p.ID])
 			status := w.Chains[p.SrcIdx].AckStatus(p.P.DstChain, p.P.Sequence)
 			if delta.Sign() == 0 && status == 0 {
 				continue // not the packet acked in this step
@@ -174,7 +174,7 @@ func run(t *rapid.T, r *rec.Recorder) {
 			if last.Arg != fmt.Sprintf("%s code=%d", p.T, p.Ack.Code) || !p.Acked {
 				continue
 			}
-			delta := new(big.Int).Sub(w.Balance(p.SrcIdx, p.Token, p.Sender.Addr), sb[p.ID])
+			delta := new(big.Int).Sub(w.SenderSide(p), sb[p.ID])
 			want := big.NewInt(0)
 			if p.Ack.Code != 0 {
 				want = p.Amount
